@@ -16,9 +16,16 @@ def nodeH (a b : Bytes) : Bytes := Sha256.sha256 (1 :: (a ++ b))
 /-- `emptyHash`: SHA256("") -/
 def emptyH : Bytes := Sha256.sha256 []
 
+/-- every fifth synthetic record is padded to one of these total lengths (as harness/cmd/corr/util_tlog.go) -/
+def synthPad : List Nat := [0, 1, 31, 32, 33, 54, 55, 56, 63, 64, 65, 119, 120, 127, 128, 129, 255, 256, 257, 511, 512, 513]
+
 /-- record `i` of the synthetic log `@seed:count` -/
 def synthRecord (seed i : Nat) : Bytes :=
-  B "rec " ++ Decimal.formatNat seed ++ B " " ++ Decimal.formatNat i ++ [10]
+  let s := B "rec " ++ Decimal.formatNat seed ++ B " " ++ Decimal.formatNat i ++ [10]
+  if i % 5 == 2 then
+    let target := synthPad.getD ((seed * 7 + i / 5) % synthPad.length) 0
+    s ++ List.replicate (target - s.length) 120
+  else s
 
 /-- records token: hex list, or `@seed:count` -/
 def records (s : String) : Option (List Bytes) :=
